@@ -163,3 +163,13 @@ Print Assumptions C03_push_keeps_classes.
 Print Assumptions C03_unify_same_rep.
 Print Assumptions C03_head_stable.
 Print Assumptions C03_every_function_preserves.
+
+(* ---- source tie: the hand-written model behind these theorems mirrors the files below; the digests of their
+   functions regenerated from /repo on this run equal the reviewed ones (coq/Doc/DocSrcDigest.v).  Any edit of
+   such a function breaks this obligation: the differential tie and the oracle then decide (tools/check.py). *)
+From Sylt Require Doc.SrcDigest Doc.DocSrcDigest Gen.GenSrcDigest.
+Theorem C03_model_sources_reviewed :
+  Sylt.Doc.SrcDigest.sources_reviewed ["sylt-compiler/src/typechecker.rs"%string; "sylt-compiler/src/ty.rs"%string]
+    Sylt.Doc.DocSrcDigest.doc_src_digests Sylt.Gen.GenSrcDigest.src_digests = true.
+Proof. vm_compute. reflexivity. Qed.
+Print Assumptions C03_model_sources_reviewed.
